@@ -84,6 +84,21 @@ def exec_c02(cfg, devs):
         s = ex.s
         cf = Crazyflie()
         info['cf'] = cf
+        if cfg.get('prior'):
+            # history: the explored attempt is not the first one on this object - a complete fault-free session (connected,
+            # all values fetched, closed by the user) precedes it
+            ex.freeze()
+            flag0 = {}
+            cb0 = lambda uri: flag0.__setitem__('f', 1)  # noqa
+            cf.fully_connected.add_callback(cb0)
+            cf.open_link('sim://0')
+            info['s0_full'] = bool(ex.wait_for(lambda: 'f' in flag0, 6.0, 'wait.session0'))
+            cf.fully_connected.remove_callback(cb0)
+            cf.close_link()
+            s.sleep(0.5, 'settle0')
+            del ex.events[:]
+            ex.frozen = False
+            s.frozen = False
         ex.observe(cf)
         # first in the list: marks the instant the disconnected notification starts
         cf.disconnected.callbacks.insert(0, lambda uri: ex.log('disc_begin', vsched._v_current_thread_name()))
@@ -294,6 +309,8 @@ def _judge(p, cfg, devs, ex, info, dev):
                    'session1_callbacks': names1, 'status': s.status}
            if (not devs or (hash((cname, tuple(devs))) % 41 == 0)) else None)
 
+    if cfg.get('prior') and not info.get('s0_full'):
+        viol('prior_session_incomplete', 'the fault-free session before the explored one did not reach fully_connected')
     # (4) liveness
     if s.died:
         d = s.died[0]
@@ -468,6 +485,11 @@ def configs(quick):
         _cfg('cf:p10:unsol', 'cf', 10, unsol=True, driver_fault=False, send_fault=False),
         # the notification is about the parameter that is read first (it repeats a value the download already has)
         _cfg('cf:p10:unsol0', 'cf', 10, unsol=True, unsol_param=0, driver_fault=False, send_fault=False),
+        # the same on an object that has had a complete session before (state carried from one connection to the next)
+        _cfg('cf:p10:unsol:after_session', 'cf', 10, unsol=True, driver_fault=False, send_fault=False, prior=True),
+        _cfg('cf:p10:unsol0:after_session', 'cf', 10, unsol=True, unsol_param=0, driver_fault=False, send_fault=False, prior=True),
+        _cfg('cf:p10:min:after_session', 'cf', 10, send_fault=True, nlog=0, nparam=1, prior=True),
+        _cfg('scf:p10:min:after_session', 'scf', 10, send_fault=True, nlog=0, nparam=1, prior=True),
         _cfg('scf:p10:retry', 'scf', 10, nlog=0, nparam=1, retry=True),
         _cfg('scf:p10:retry:handoff', 'scf', 10, nlog=0, nparam=1, retry=True, policy='handoff'),
         _cfg('cf:p10:hello:handoff', 'cf', 10, send_fault=True, nlog=0, nparam=1, hello=True, policy='handoff'),
@@ -520,7 +542,7 @@ def run(ck):
                'driver-thread link error at any scheduling point, link error inside send_packet at any transmission, '
                'user close_link at any point, any other runnable thread at any synchronisation point (line-level '
                'configurations: every line of 17 named functions); each execution = faulty session + settle + '
-               'fault-free second session; non-trivial = at least one deviation')
+               'fault-free second session (four configurations: preceded by a complete fault-free session on the same object); non-trivial = at least one deviation')
     ck.assume('SimLink mirrors RadioDriver: error callback from the driver thread or from inside send_packet on the '
               'caller thread; close() clears the callback')
     ck.assume('virtual time: a running library thread is infinitely fast relative to timers at other instants')
